@@ -698,6 +698,11 @@ def trig1_level0_stall_has_a_due_compaction(P, R, L, rule="TRIG-1"):
                 if o.kind == "call" and (o.name or "").endswith("::num_files_at_level") and o.site is not None and len(o.site.args) >= 2 and _const_val(o.site.args[1]) != 0:
                     lvl_ok = False
             n_ = _const_num(y)
+            if n_ is None:
+                # the limit reaches the comparison through a local (the argument of an inlined helper): one constant, or nothing
+                vs = {_const_num(o.extra) if (o.kind == "const" and o.extra is not None) else None for o in origins(mr, y)}
+                if len(vs) == 1 and None not in vs:
+                    n_ = vs.pop()
             if n_ is None or op not in ("ge", "gt"):
                 bad.append("level-0 file count compared with a non-constant or in another direction (line %s)" % c.line)
                 continue
